@@ -212,7 +212,7 @@ int disasm_epiphany(
           snprintf(instruction, length, "%s r%d", table_epiphany[n].instr, rn);
           return 4;
         case OP_NUM6_16:
-          imm = opcode32 >> 10;
+          imm = opcode16 >> 10;
           snprintf(instruction, length, "%s %d", table_epiphany[n].instr, imm);
           return 2;
         case OP_NONE_16:
